@@ -227,7 +227,8 @@ class NullChecker:
                         yield n, t.id, p
 
 
-def check_nullable(ctx, rule, funcs, source_pred, describe, xref_only=False, xref=None):
+def check_nullable(ctx, rule, funcs, source_pred, describe, xref_only=False, xref=None,
+                   what="may be absent (None)", test="None test"):
     """source_pred(fi, node) -> truthy description if `node` (Call or Attribute) is a possibly-None
     source.  Every None-intolerant use must be guarded."""
     nc = ctx.shared.setdefault("nullchecker", NullChecker(ctx))
@@ -257,8 +258,8 @@ def check_nullable(ctx, rule, funcs, source_pred, describe, xref_only=False, xre
                 stmt = use
                 while id(stmt) in pm and not isinstance(stmt, ast.stmt):
                     stmt = pm[id(stmt)]
-                msg = "%s may be absent (None) — %s — but is used as %s without a dominating None test" % (
-                    norm(node)[:80], src, sk)
+                msg = "%s %s — %s — but is used as %s without a dominating %s" % (
+                    norm(node)[:80], what, src, sk, test)
                 if xref_only or (xref is not None and xref(fi, node)):
                     ctx.xref(rule, loc(fi, use), msg)
                 else:
